@@ -38,7 +38,7 @@ pub enum RProc {
 
 pub struct Frame {
     vars: RefCell<HashMap<String, Rc<RefCell<RVal>>>>,
-    parent: Option<Env>,
+    pub parent: Option<Env>,
 }
 pub type Env = Rc<Frame>;
 
@@ -413,6 +413,15 @@ impl Machine {
         }
     }
 
+    /// a fresh top-level environment that sees only the primitives (a library's own scope)
+    pub fn new_library_env(&self) -> Env {
+        new_env(self.global.parent.clone())
+    }
+    /// evaluate a form as a top-level form of the given environment (definitions go there)
+    pub fn eval_in(&mut self, x: &Sx, env: &Env) -> RResult {
+        self.depth = 0;
+        self.eval_toplevel_form(x, env)
+    }
     /// Evaluate one top-level form in the global environment.
     pub fn eval_top(&mut self, x: &Sx) -> RResult {
         let g = self.global.clone();
@@ -1154,6 +1163,11 @@ pub fn canonical_state(m: &Machine) -> String {
         let ptr = Rc::as_ptr(f);
         if ptr == global {
             d.out.push_str("@G");
+            return;
+        }
+        if f.parent.is_none() {
+            // the root frame holds the primitives
+            d.out.push_str("@prims");
             return;
         }
         if let Some(i) = d.frames.iter().position(|p| *p == ptr) {
